@@ -332,7 +332,9 @@ def _tag_value(draw, ty):
     if ty == "H":
         return draw(st.sampled_from(["", "1A", "00FF"]))
     if ty == "B":
-        return draw(st.sampled_from(["c,1,-2", "f,0.5,1e3", "I,7", "S"]))
+        # arrays of every integer subtype with their extreme values
+        return draw(st.sampled_from(["c,1,-2", "f,0.5,1e3", "I,7", "S", "C,0,128,255", "c,-128,127", "s,-32768,32767", "S,0,65535",
+                                     "i,-2147483648,2147483647", "I,0,4294967295"]))
     raise AssertionError(ty)
 
 
